@@ -90,6 +90,16 @@ func driveMine(args []string) error {
 			scenario{a: []string{"t"}, ea: c, adm: []arrival{{[]string{"w"}, e, "wire"}, {[]string{"u"}, c, "rpc"}}},    // arrives inside a box written in e
 			scenario{a: []string{}, ea: c, adm: []arrival{{[]string{"b"}, e, "rpc"}, {[]string{"w"}, e, "wire"}, {[]string{"t"}, e, "rpc"}}}) // pool index
 	}
+	// the transaction's own carrier (txguard/own.go): t / n written again by somebody else in another form of their own RLP (wire) /
+	// JSON (rpc) arrive while the original is on the head's branch, in the pool, or on the side fork
+	for _, e := range txguard.OwnEncs {
+		scen = append(scen,
+			scenario{a: []string{"t"}, ea: c, adm: []arrival{{[]string{"tv"}, e, "wire"}, {[]string{"u"}, c, "wire"}}},   // the original is on the branch
+			scenario{a: []string{"t", "n"}, ea: c, adm: []arrival{{[]string{"tv", "nv"}, e, "rpc"}}},
+			scenario{a: []string{}, ea: c, adm: []arrival{{[]string{"t"}, c, "wire"}, {[]string{"tv"}, e, "rpc"}, {[]string{"nv"}, e, "wire"}, {[]string{"n"}, c, "rpc"}}}, // both in the pool
+			scenario{a: []string{"n"}, b: []string{"t"}, ea: c, eb: c, adm: []arrival{{[]string{"bv"}, e, "wire"}, {[]string{"tv"}, e, "wire"}}},                       // the original comes back from the side fork
+			scenario{a: []string{"tv"}, b: []string{"bv"}, ea: e, eb: e, adm: []arrival{{[]string{"t"}, c, "rpc"}}})                                                  // the variant was offered first
+	}
 	lines := 0
 	emit := func(fl engine.Fields) error { lines++; return enc.Encode(fl) }
 	for si, sc := range scen {
@@ -142,7 +152,11 @@ func driveMine(args []string) error {
 			var res []string
 			for ti, tx := range u.Carried(ar.ids, ar.enc) {
 				if ar.form == "rpc" {
-					tx = txguard.ViaJSON(tx, ar.enc, fmt.Sprintf("adm-%d-%d-%d", si, ai, ti), u.Cross)
+					var err error
+					if tx, err = u.ViaRPC(ar.ids[ti], ar.enc, fmt.Sprintf("adm-%d-%d-%d", si, ai, ti)); err != nil {
+						res = append(res, "unreadable: "+err.Error()) // the node's JSON decoder refuses it
+						continue
+					}
 				}
 				if err := tx.VerifyTxBody(node.ChainID, uint64(time.Now().Unix()), false); err != nil {
 					res = append(res, "invalid: "+err.Error())
